@@ -145,7 +145,7 @@ def spectrum(kind: str, r: int, rng, kappa: float = 10.0) -> np.ndarray:
 
 
 STRUCT_CLASSES = ["axis0", "axis1", "axis2", "axis3", "herm_psd", "herm_nsd", "herm_indef", "unitary", "diag",
-                  "unit_identity", "rank1", "upper_tri", "lower_tri", "one_nonzero", "real_only", "tiny_row", "neg_identity"]
+                  "unit_identity", "rank1", "upper_tri", "lower_tri", "one_nonzero", "real_only", "tiny_row", "neg_identity", "spike_vs_flat", "spike_vs_flat_T"]
 
 
 def structured(rng, cls: str, m: int, n: int) -> np.ndarray:
@@ -196,6 +196,18 @@ def structured(rng, cls: str, m: int, n: int) -> np.ndarray:
         c = np.zeros((m, n, 4))
         c[..., 0] = rng.standard_normal((m, n))
         return refq.qa(c)
+    if cls in ("spike_vs_flat", "spike_vs_flat_T"):
+        # one line (row; column for _T) carries a single large entry and is otherwise nearly empty, the other lines are flat and dense: the
+        # spiky line wins every 2-norm comparison, a flat line wins the sum of moduli - any screening of lines by another norm picks wrongly
+        mm, nn = (m, n) if cls == "spike_vs_flat" else (n, m)
+        c = rng.standard_normal((mm, nn, 4)) * 0.2
+        r_ = int(rng.integers(0, mm))
+        c[r_] *= 1e-3
+        flat2 = float(np.sqrt((c ** 2).sum(axis=(1, 2))).max())
+        v = rng.standard_normal(4)
+        c[r_, int(rng.integers(0, nn))] = v / np.linalg.norm(v) * (2.0 * np.sqrt(max(mm, 1)) * flat2 + 1.0)
+        A = refq.qa(c)
+        return A if cls == "spike_vs_flat" else refq.qa(np.transpose(c, (1, 0, 2)).copy())
     if cls == "tiny_row":
         c = rng.standard_normal((m, n, 4))
         c[int(rng.integers(0, m))] *= 1e-18
